@@ -727,7 +727,8 @@ def run(ctx):
                             has_locked = True
                 if has_entry and has_locked:
                     sel_ok = True
-            rel_saves = [b_ for b_, t_ in cfg.find_calls(hf, c.WOB + "save") if vf.has_call(vf.origins(hf, t_["a"][1]), c.WB + "iter")]
+            from .shared import released_as_unspent
+            rel_saves = [b_ for b_, t_ in cfg.find_calls(hf, c.WOB + "save") if vf.has_call(vf.origins(hf, t_["a"][1]), c.WB + "iter") and released_as_unspent(hf, b_, t_)]
             if it and sel_ok and rel_saves:
                 by_tx = True
         held = not (ranged and allrec) or by_tx
